@@ -13,7 +13,7 @@ open ThermoVerif.FlowViews
 
 /-- **view_tracks_rows.**  After *any* history of operations (reads and writes through the views, T / P / phase /
 phases changes, `link_with` in all flag combinations, `unlink`, `copy_like` incl. `_expand_phases`, property-package
-resets, unit-of-measure calls), every view object held by the `_data_cache` of any stream wraps exactly the row
+resets, in-place mixing / scaling / reactions, unit-of-measure calls), every view object held by the `_data_cache` of any stream wraps exactly the row
 objects the stream's molar indexer currently holds, refers to the stream's current thermal-condition object and
 phase container / phases, captured the stream's current chemicals, and is filed under `'mass'` or the current
 thermal-condition object. -/
@@ -338,7 +338,9 @@ theorem setPhases_vcs {w w' : World} {sid : Nat} {ps : List Char} {R : Mat} (he 
       · cases he; rfl
       · split at he
         · cases he
-        · cases he; rfl
+        · split at he
+          · cases he
+          · cases he; rfl
     · split at he
       · cases he
       · split at he
@@ -392,6 +394,24 @@ theorem resetThermo_vcs {w w' : World} {sid k : Nat} {R : Mat} (he : w.resetTher
   simp only [World.resetThermo] at he
   split at he
   · cases he; rfl
+  · split at he
+    · cases he
+    · split at he
+      · cases he
+      · cases he; rfl
+
+theorem sync_vcs {w w' : World} {sid : Nat} {T P : Rat} {ph : Option Char} {R : Mat}
+    (he : w.sync sid T P ph R = .ok w') : w'.c.vcs = w.c.vcs := by
+  simp only [World.sync] at he
+  split at he
+  · cases he
+  · cases he; rfl
+
+theorem mixInto_vcs {w w' : World} {sid : Nat} {others : List Char} {P : Rat} {R : Mat}
+    (he : w.mixInto sid others P R = .ok w') : w'.c.vcs = w.c.vcs := by
+  simp only [World.mixInto] at he
+  split at he
+  · cases he
   · split at he
     · cases he
     · split at he
@@ -495,6 +515,16 @@ theorem exec_vvalid {Vf : VFun} {w w' : World} {op : Op} {out : Out} (h : Inv w.
       split at he
       · cases he
       · rename_i w1 hw1; cases he; exact vvalid_of_vcs hv (resetThermo_vcs hw1)
+    | sync s T P ph R =>
+      simp only [Except.bind, okShape] at he
+      split at he
+      · cases he
+      · rename_i w1 hw1; cases he; exact vvalid_of_vcs hv (sync_vcs hw1)
+    | mixInto s others P R =>
+      simp only [Except.bind, okShape] at he
+      split at he
+      · cases he
+      · rename_i w1 hw1; cases he; exact vvalid_of_vcs hv (mixInto_vcs hw1)
     | readMol s => cases he; exact hv
     | readMass s =>
       cases he
@@ -595,6 +625,30 @@ theorem vcache_valid_along_histories {Vf : VFun} (ops : List Op) {w : World} (h 
     split
     · rename_i w1 out he; exact exec_vvalid h hv h1 he
     · exact hv
+
+/-! ### the two view laws in every reachable state -/
+
+/-- **mass_is_mol_MW_after_any_history.**  From the configured start, after any history whatsoever, the mass view of
+any stream reads molar flow × molecular weight. -/
+theorem mass_is_mol_MW_after_any_history (thermos : List (List Rat)) (units : List UnitDef) (ops : List Op)
+    (sid : Nat) (hs : sid < (({ thermos := thermos, units := units } : World).run ops).s.nstreams) :
+    let w := ({ thermos := thermos, units := units } : World).run ops
+    (w.readMass sid).2.2 = (w.readMol sid).map (fun r => mulVec r (w.MW (w.stream sid).th)) :=
+  mass_is_mol_MW (run_inv ops inv_init) hs
+
+/-- **vol_is_mol_V_after_any_history.**  From the configured start, after any history whose molar-volume parameters
+come from one function `Vf`, the volumetric view of any stream reads molar flow × `Vf` at the stream's current
+chemicals, phase, T and P. -/
+theorem vol_is_mol_V_after_any_history {Vf : VFun} (thermos : List (List Rat)) (units : List UnitDef)
+    (ops : List Op) (hok : RunOk Vf ({ thermos := thermos, units := units } : World) ops) (sid : Nat) (V : Mat)
+    (hs : sid < (({ thermos := thermos, units := units } : World).run ops).s.nstreams)
+    (hl : VLine Vf (({ thermos := thermos, units := units } : World).run ops) sid V) :
+    let w := ({ thermos := thermos, units := units } : World).run ops
+    (w.readVol sid V).2.2 = (w.readMol sid).zipIdx.map (fun (r, k) => r.zipIdx.map (fun (x, i) =>
+      x * Vf (w.stream sid).th (streamPhase w sid k) (w.c.tcs (w.stream sid).tc).1 (w.c.tcs (w.stream sid).tc).2 i)) := by
+  have h := vcache_valid_along_histories (Vf := Vf) ops (w := { thermos := thermos, units := units }) inv_init
+    (fun _ e he => by cases he) hok
+  exact vol_is_mol_V h.2 hs h.1 hl
 
 /-! ## totals: setting a total scales every row by one factor -/
 
